@@ -49,7 +49,9 @@ def build(repo, profile='dev'):
     key = (repo, profile)
     if key in _built:
         return _built[key]
-    out = os.path.join(verus.SCRATCH_ROOT, 'yqv-replay-' + _src_hash(repo))
+    # one build directory per process: checks of different properties may run concurrently on the same tree, and each
+    # removes its directory when it is done
+    out = os.path.join(verus.SCRATCH_ROOT, 'yqv-replay-%s-%d' % (_src_hash(repo), os.getpid()))
     os.makedirs(os.path.join(out, 'src'), exist_ok=True)
     toml = open(os.path.join(VERIF, 'replay', 'Cargo.toml.in')).read().replace('@REPO@', crate_copy(repo, out))
     open(os.path.join(out, 'Cargo.toml'), 'w').write(toml)
